@@ -244,6 +244,10 @@ func (r *replayer) caseFor(hr *HarnessResult, v *Violation) *replayCase {
 			rc.Attempts = 3000
 			break
 		}
+		if d.K == "ch:select" {
+			rc.Attempts = 40 // the outcome of a non-blocking send depends on the native schedule
+			break
+		}
 	}
 	return rc
 }
@@ -281,6 +285,15 @@ func (r *replayer) validateSamples(hr *HarnessResult) (int, int, []string) {
 	for i, s := range hr.Res.ValSamples {
 		if i >= 6 {
 			break
+		}
+		scheduleDependent := false
+		for _, d := range s.Trace {
+			if d.K == "ch:select" {
+				scheduleDependent = true
+			}
+		}
+		if scheduleDependent {
+			continue // the native schedule cannot be forced to take the same select outcome
 		}
 		rc := &replayCase{Property: r.prop, Harness: hr.Harness, Func: fn, FloatMode: hr.FloatMode, MapOrder: hr.MapOrder,
 			Bounds: hr.Bounds, Inputs: s.Inputs, Decisions: s.Trace, Expect: "clean", Attempts: 1}
